@@ -193,12 +193,13 @@ type lcOpts struct {
 }
 
 type lcResult struct {
-	compactorOps int
-	syncReads    int
-	quiescent    bool
-	plans        []planRecord
-	crashed      bool
-	intercepted  bool
+	compactorOps   int
+	syncReads      int
+	quiescent      bool
+	plans          []planRecord
+	crashed        bool
+	intercepted    bool
+	failedIterDone bool
 }
 
 func missing(served, want map[string]int) []string {
@@ -345,7 +346,7 @@ func (sc *lcScenario) execute(x *simkit.Exec, salt string, o lcOpts) lcResult {
 				if node == nil {
 					h = bkt.Handle("compactor")
 					h.Intercept = func(kind, name string) error {
-						if !inSync || o.syncReadFail == 0 {
+						if !inSync {
 							return nil
 						}
 						if kind == "get" || kind == "iter" || kind == "exists" || kind == "attributes" {
@@ -382,6 +383,7 @@ func (sc *lcScenario) execute(x *simkit.Exec, salt string, o lcOpts) lcResult {
 					continue
 				}
 				if o.checkNoDestr && failedIter == iter {
+					defer func() { res.failedIterDone = true }()
 					if err == nil {
 						s.Probe("c33.iteration_succeeded_despite_failed_sync_read")
 					}
@@ -391,6 +393,7 @@ func (sc *lcScenario) execute(x *simkit.Exec, salt string, o lcOpts) lcResult {
 							iter, destructiveAfterFail, simbucket.FormatLog(bkt.Log(), 40))
 						return
 					}
+					return // C33 only judges the iteration in which the read failed
 				}
 				if err == nil && mutations(bkt, "compactor") == before && !hasDeletionMarks(bkt) {
 					quietIters++
